@@ -17,3 +17,4 @@ def run(col, configs, tier):
         guarded(col, S.rule_error_pairing, facts)
         guarded(col, S.rule_flags_enforced, facts)
         guarded(col, X.rule_suffix_needs_digit, facts)
+        guarded(col, X.rule_grammar_guards, facts)
